@@ -90,19 +90,21 @@ pub mod life {
             }
             let expect_closed = !(ta[0] || ta[1]) || !(ra[0] || ra[1]);
             // observe: woken <=> closed; a re-poll completes with None <=> closed
-            if (p & P11) != 0 {
+            // the implicit close by the last handle is C11's clause; "a receiver pending at the close is woken and resolves
+            // to None" is also a clause of C12 (oneshot flavours) and C13 (state broadcast): the oracle is owned by all three
+            if (p & (P11 | P12 | P13)) != 0 {
                 assert!((cell.n() > 0) == expect_closed,
-                    "C11 lifecycle: a pending receive was woken although a handle of each side is alive, or not woken when the last handle of a side was dropped");
+                    "C11+C12+C13 lifecycle: a pending receive was woken although a handle of each side is alive, or not woken when the last handle of a side was dropped");
             }
             match unsafe { Pin::new_unchecked(&mut *obs) }.poll(&mut cx) {
                 Poll::Pending => {
-                    if (p & P11) != 0 { assert!(!expect_closed, "C11 lifecycle: the channel stayed open after the last handle of a side was dropped"); }
+                    if (p & (P11 | P12 | P13)) != 0 { assert!(!expect_closed, "C11+C12+C13 lifecycle: the channel stayed open (a pending receive does not resolve) after the last handle of a side was dropped"); }
                 }
                 Poll::Ready(o) => {
                     let none = L::is_none(&o);
                     L::forget_output(o);
-                    if (p & P11) != 0 {
-                        assert!(expect_closed && none, "C11 lifecycle: the channel closed although a sender handle and a receiver handle are still alive");
+                    if (p & (P11 | P12 | P13)) != 0 {
+                        assert!(expect_closed && none, "C11+C12+C13 lifecycle: the channel closed although a sender handle and a receiver handle are still alive");
                     }
                     closed = true;
                 }
